@@ -44,6 +44,8 @@ type oracle struct {
 	prop  string
 	after string // kind of the operation that was just applied
 	last  bool   // this is the last operation of the plan
+	// C10: the operation that was just applied went through the enumeration
+	enumerated bool
 }
 
 // afterClass maps the kind of the last operation onto the few history shapes
@@ -67,7 +69,59 @@ func (x *oracle) afterClass() string {
 }
 
 func (x *oracle) failf(sig, format string, a ...any) {
+	if x.prop == "C10" && !isC10Sig(sig) {
+		// a post-state that differs from the model's prediction: after an
+		// enumerated operation this is "the retry differs from a run without
+		// the fault"; otherwise the host history itself disagrees with the
+		// ledger (C01/C13 matter, or contamination by an earlier enumeration)
+		class := "host-mismatch"
+		if x.enumerated {
+			class = "retry-differs"
+		}
+		q := sig
+		if i := strings.IndexByte(q, ':'); i > 0 {
+			q = q[:i]
+		}
+		format = "[" + sig + "] " + format
+		sig = class + ":op=" + x.after + ":query=" + q
+	}
 	x.env.Fail(x.prop, core.SigSafe(sig), format, a...)
+}
+
+func isC10Sig(sig string) bool {
+	for _, p := range []string{"fault-swallowed", "rollback-leak", "state-changed-after-failed", "retry-differs", "harness:", "store-error:", "host-mismatch"} {
+		if strings.HasPrefix(sig, p) {
+			return true
+		}
+	}
+	return false
+}
+
+// enumProbes counts what the enumeration of the operation just applied reached.
+func (x *oracle) enumProbes(en *enumerator, kind string) {
+	if en.instances == 0 {
+		return
+	}
+	w := x.w
+	switch kind {
+	case "rollback":
+		if en.maxN > 10 {
+			w.probe("fault-in-rollback")
+		}
+	case "lock", "unlock", "sweep":
+		if en.maxN > 0 {
+			w.probe("fault-in-lease-op")
+		}
+	}
+	if w.removedDesc && en.maxN > 0 {
+		w.probe("fault-in-removeconflict-recursion")
+	}
+	if en.addCredit && en.maxN > 0 {
+		w.probe("fault-in-addcredit")
+	}
+	if en.instances > 1 {
+		w.probe("multi-transaction-op-enumerated")
+	}
 }
 
 func (x *oracle) qerr(call string, err error) bool {
@@ -87,6 +141,8 @@ func (x *oracle) check() {
 			x.checkC01(ns, v)
 		case "C02":
 			x.checkC02(ns, v)
+		case "C10":
+			x.checkC10(ns, v)
 		case "C12":
 			x.checkC12(ns, v)
 		case "C13":
